@@ -22,7 +22,7 @@ Theorem restart_old w r n k D U r2 :
   exists id rc, ob_start (snd (step w' (HReq r2))) = Some (id, rc) /\ r_ref rc = None /\ full D U rc.
 Proof.
   intros H w' Hpl Hcr Hk Hok.
-  destruct (crash_store_rot w r n k D U H) as (l & s2 & o & cks & _ & _ & _ & C1 & C2 & C3 & C4 & _ & Hold & _).
+  destruct (crash_store_rot w r n k D U H) as (l & s2 & o & cks & _ & _ & _ & _ & C1 & C2 & C3 & C4 & _ & Hold & _).
   apply (probe_step w' r2 k D U); try assumption.
   fold w' in C3, C4. rewrite C3, C4. exact Hok.
 Qed.
@@ -31,7 +31,7 @@ Qed.
 Theorem restart_new w r n k D U r2 :
   rot_crash w r n k D U ->
   let w' := fst (step w (HReq r)) in let nid := KGen (supply (w_st w)) in
-  (forall l, evs (fst (fst (start (req_s1 w r) (req_q w r)))) = rev l -> (length l <= n)%nat) ->
+  (length (evs (req_end w r)) <= n)%nat ->
   rq_plan r2 = [] -> rq_crash r2 = None -> pres w' r2 = CKey nid ->
   (forall rk, lookup (store (w_st w')) nid = Some rk ->
      probe_ok (conf (w_st w)) (now (w_st w)) (probe_q nid r2) rk) ->
@@ -39,9 +39,9 @@ Theorem restart_new w r n k D U r2 :
   exists id rc, ob_start (snd (step w' (HReq r2))) = Some (id, rc) /\ r_ref rc = None /\ full D U rc.
 Proof.
   intros H w' nid Hn Hpl Hcr Hk Hok.
-  destruct (crash_store_rot w r n k D U H) as (l & s2 & o & cks & E & El & _ & C1 & C2 & C3 & C4 & _ & _ & Hnew).
+  destruct (crash_store_rot w r n k D U H) as (l & s2 & o & cks & E & El & Hlen & _ & C1 & C2 & C3 & C4 & _ & _ & Hnew).
   apply (probe_step w' r2 nid D U); try assumption.
-  - apply Hnew. apply Hn. rewrite E. cbn [fst]. rewrite El, rev_involutive. reflexivity.
+  - apply Hnew. rewrite Hlen. exact Hn.
   - fold w' in C3, C4. rewrite C3, C4. exact Hok.
 Qed.
 
@@ -65,7 +65,7 @@ Theorem restart_old_later w r n k D U d r2 :
   exists id rc, ob_start (snd (step w2 (HReq r2))) = Some (id, rc) /\ r_ref rc = None /\ full D U rc.
 Proof.
   intros H w' w2 Hpl Hcr Hk Hok.
-  destruct (crash_store_rot w r n k D U H) as (l & s2 & o & cks & _ & _ & _ & C1 & C2 & C3 & C4 & _ & Hold & _).
+  destruct (crash_store_rot w r n k D U H) as (l & s2 & o & cks & _ & _ & _ & _ & C1 & C2 & C3 & C4 & _ & Hold & _).
   destruct (crash_world w r n (rc_crash _ _ _ _ _ _ H)) as (_ & _ & _ & C5 & _).
   destruct (wait_after_crash w' d C2 C1 C5) as (W1 & W2 & W3 & W4 & W5 & W6). fold w2 in W1, W2, W3, W4, W5, W6.
   apply (probe_step w2 r2 k D U); try assumption.
